@@ -1024,8 +1024,10 @@ def run_ext(case, obs, rng, fail):
             res = outcome(lambda: f.diff(d, order=o, restrict2valid=case["restrict"]))
             obs["calls"].append((d, o, res))
             # property level: an order other than 1 and 2 is never differentiated, whatever the name
-            if o not in (1, 2) and res[0] != "notimpl":
-                fail(f"diff({d!r}, order={o}) on dims={dims} gives {res[0]}, not NotImplementedError")
+            # (the property says "refused": which exception class is raised - and which of two malformed arguments is
+            # reported first - is not compared)
+            if o not in (1, 2) and res[0] == "ok":
+                fail(f"diff({d!r}, order={o}) on dims={dims} returns a field: an order other than 1 and 2 must be refused")
             if o in (1, 2) and d in dims and res[0] != "ok":
                 fail(f"diff({d!r}, order={o}) on dims={dims}, bc={mesh.bc!r} is refused ({res[0]})")
         obs["tags"] += ["named:" + ("known" if d in dims else "unknown") + ",order:" + ("ok" if o in (1, 2) else "bad") for d, o in calls]
@@ -1138,9 +1140,10 @@ def ext_compare(case, obs, rs):
     kind = case["kind"]
     if kind == "dirname":
         for (d, o, (tag, g)), r in zip(obs["calls"], rs):
-            mtag = "ok" if "ok" in r else r.get("err")
-            if tag != mtag:
-                dis.append(f"diff({d!r}, order={o}): impl {tag} vs model {mtag}")
+            mtag = "ok" if "ok" in r else "refused"
+            itag = "ok" if tag == "ok" else "refused"          # exception classes are never compared
+            if itag != mtag:
+                dis.append(f"diff({d!r}, order={o}): impl {tag} vs model {r.get('err', 'ok')}")
             elif tag == "ok":
                 fieldio.cmp_field(f"diff({d!r}, order={o})", g, r["ok"], dis)
     elif kind == "wordfield":
